@@ -28,6 +28,7 @@ def main():
         os.makedirs(ex.workdir, exist_ok=True)
         if tgt.inline_all:
             ex.inline_all = True
+        ex.track_dict_len = bool(getattr(tgt, "track_dict_len", False))
         unit = P.repo.unit(tgt.key)
         out["unit"] = {"key": unit.key, "file": unit.module.path, "sha256": unit.module.sha256,
                        "ast_hash": unit.ast_hash(), "span": unit.span()}
